@@ -284,11 +284,29 @@ class Check(PropertyCheck):
         r = random.Random(seed)
         _, jobs = gen.gen_instance(r, r.choice(["classic", "irregular", "recirc"]), max_jobs=3, max_machines=3, max_ops=3)
         from impl import build_instance
-        g = build_disjunctive_graph(build_instance(jobs))
-        which = r.choice([("SOURCE", "SINK"), ("SOURCE",), ("SINK",), ("SOURCE", "SINK")])
-        for node in list(g.nodes):
-            if node.node_type.name in which:
-                g.remove_node(node.node_id)
+        if seed % 2 == 1:
+            # a graph assembled from the public building blocks with the machine (and job) nodes added in DECREASING id order - a legal
+            # graph: every entity has its node, the look-ups by id must find them wherever they sit
+            from job_shop_lib import graphs as G
+            from job_shop_lib.graphs import _build_agent_task_graph as GB
+            inst_ = build_instance(jobs)
+            g = G.JobShopGraph(inst_)
+            for m_ in reversed(range(inst_.num_machines)):
+                g.add_node(G.Node(G.NodeType.MACHINE, machine_id=m_))
+            with_jobs = r.random() < 0.5
+            if with_jobs:
+                for j_ in reversed(range(inst_.num_jobs)):
+                    g.add_node(G.Node(G.NodeType.JOB, job_id=j_))
+            G.add_operation_machine_edges(g)
+            if with_jobs:
+                GB.add_operation_job_edges(g)
+            which = ("machine nodes in decreasing order",) + (("job nodes in decreasing order",) if with_jobs else ())
+        else:
+            g = build_disjunctive_graph(build_instance(jobs))
+            which = r.choice([("SOURCE", "SINK"), ("SOURCE",), ("SINK",), ("SOURCE", "SINK")])
+            for node in list(g.nodes):
+                if node.node_type.name in which:
+                    g.remove_node(node.node_id)
         res = []
         from job_shop_lib.dispatching import DispatcherObserverConfig
         from job_shop_lib.dispatching.feature_observers import FeatureObserverType
@@ -311,9 +329,14 @@ class Check(PropertyCheck):
                     return res
                 d = env.dispatcher
                 ready = [j for j, job in enumerate(d.instance.jobs) if d.job_next_operation_index[j] < len(job)]
-                if not ready or (ep < 2 and steps >= 2):
+                if not ready or (ep < 2 and steps >= 2 and seed % 2 == 0):
                     break
-                obs, _, done, _, _ = env.step((r.choice(ready), -1))
+                try:
+                    obs, _, done, _, _ = env.step((r.choice(ready), -1))
+                except Exception as e:  # pylint: disable=broad-except
+                    res.append(("raise-on-legal", f"custom graph ({'/'.join(which).lower()}), episode {ep + 1} after {steps} steps: a legal "
+                                f"step raised {type(e).__name__}: {str(e)[:80]}"))
+                    return res
                 steps += 1
         return res
 
